@@ -40,7 +40,7 @@ for item in SPEC.replace("\n", " ; ").split(";"):
     rows.append((toks[0], [K[t] for t in toks[1:]]))
 out = ["(* IC10 instruction signatures — trusted specification, written from the IC10 reference.",
        "   Expanded by tools/oneoff/mksig.py from its compact spec; edit the spec, not this file. *)",
-       "From Coq Require Import List String Bool.", "Import ListNotations.", "Open Scope string_scope.", "",
+       "From Coq Require Import List String Bool.", "Import ListNotations.", "Local Open Scope string_scope.", "",
        "Inductive okind := KOut | KDev | KVal | KTgt | KName | KRegOrDev.",
        "Record sig := { s_name : string; s_ops : list okind }.", "",
        "Definition okind_eqb (a b : okind) : bool :=",
